@@ -2,6 +2,7 @@
 from ..paths import PathEnumerator
 from ..guards import fv
 from ..terms import TermBuilder, fmt, mk, const
+from ..terms import callee_is as _nm
 from .common import SELF, self_field
 
 EXPLANATION = (
@@ -587,7 +588,7 @@ def split_rules(ctx):
         def is_lowmask(m_, bits_, total_only=False):
             """m_ is the mask of the low `bits_` bits: (1 << bits) - 1 (valid for bits < 64) or the branch-free u64::MAX >> (64 - bits)
             (valid for 1 <= bits <= 64)"""
-            if m_[0] == "op" and m_[1] == "Shr" and len(m_[2]) == 2 and m_[2][0] in (const(2 ** 64 - 1),) + tuple(x for x in (m_[2][0],) if x[0] == "call" and x[1].endswith("max_value")) \
+            if m_[0] == "op" and m_[1] == "Shr" and len(m_[2]) == 2 and m_[2][0] in (const(2 ** 64 - 1),) + tuple(x for x in (m_[2][0],) if x[0] == "call" and _nm(x[1], "max_value")) \
                     and linear_eq(m_[2][1], mk("Sub", const(64), bits_)):
                 return True
             if total_only:
